@@ -16,4 +16,6 @@ INVARIANT InvCommute
 INVARIANT InvLastWins
 INVARIANT InvSetAfterReplace
 INVARIANT InvReplaceAfterSet
+INVARIANT InvRoundtripBand
+INVARIANT InvRoundtripUniform
 INVARIANT InvTable
